@@ -93,8 +93,8 @@ func (w *World) observe(n *Node, st *State, seed uint64) (out []obs) {
 	}
 	if n.isMap() {
 		// the allocated height must be able to hold the leaves
-		if rowsFor(st.N) > n.mp.TotalRows {
-			add("roots", "totalrows-too-small", "TotalRows %d < rows needed %d", n.mp.TotalRows, rowsFor(st.N))
+		if rowsFor(st.N) > n.mp.Rows() {
+			add("roots", "totalrows-too-small", "TotalRows %d < rows needed %d", n.mp.Rows(), rowsFor(st.N))
 		}
 	}
 	if w.on("lookup") {
@@ -291,7 +291,7 @@ func (w *World) observeLookups(n *Node, st *State, seed uint64) (out []obs) {
 		}
 	}
 	if n.cfg.Kind == "mapfull" {
-		if c := n.mp.CachedLeaves.Length(); c != live {
+		if c := n.mp.CachedLen(); c != live {
 			add("count", "full map forest tracks %d leaves, model has %d live", c, live)
 		}
 	}
@@ -308,7 +308,7 @@ func (w *World) altNumbering(n *Node, st *State, pos uint64) (H, bool) {
 		return H{}, false
 	}
 	L := st.Layout()
-	T := n.mp.TotalRows
+	T := n.mp.Rows()
 	if T == L.R || T > 63 {
 		return H{}, false
 	}
